@@ -189,11 +189,11 @@ Proof.
       cbn [forallb snd fst] in *. apply andb_prop in H2. destruct H2 as [H2 H3].
       pose proof (has_deps_subst ns x e b E N) as Hd.
       destruct (has_deps ns b) eqn:Hdb.
-      * apply CF_dep; [assumption|congruence| |apply IH; assumption].
+      * apply CF_dep; [right; split; congruence| |apply IH; assumption].
         apply Hb; [|assumption|].
         -- rewrite in_app_iff. tauto.
         -- intros z Hz Hin. apply in_app_iff in Hin. destruct Hin as [Hin|Hin]; [exact (N z Hin Hz)|exact (He z Hz Hin)].
-      * apply CF_nodep; [assumption|congruence| |apply IH; assumption].
+      * apply CF_nodep; [reflexivity|assumption|congruence| |apply IH; assumption].
         apply Hb; assumption.
   - constructor; auto.
   - constructor; auto.
